@@ -270,3 +270,22 @@ impl Default for BlockingRegistry {
         Self::new()
     }
 }
+
+/// Verification hooks (add-only, compiled only with --cfg ferrous_verif)
+#[cfg(ferrous_verif)]
+impl BlockingManager {
+    /// per database with waiters: (db, key, waiting connection ids in queue order); and the wake-queue length
+    pub fn verif_dump(&self) -> (Vec<(usize, Vec<u8>, Vec<u64>)>, usize) {
+        let mut out = Vec::new();
+        for (db, reg) in self.registries.iter().enumerate() {
+            let g = reg.read().unwrap();
+            let mut keys: Vec<&Vec<u8>> = g.blocked_on_key.keys().collect();
+            keys.sort();
+            for k in keys {
+                let ids: Vec<u64> = g.blocked_on_key[k].iter().map(|c| c.conn_id).collect();
+                out.push((db, k.clone(), ids));
+            }
+        }
+        (out, self.wake_queue.len())
+    }
+}
